@@ -72,6 +72,11 @@ def rule_edgepred(ctx):
         idiom = sorted(kinds) in (["method:append", "setitem"], ["method:append", "method:setdefault"])
         # every hit pair must be recorded: the append runs on every iteration (only the creation of the list is conditional)
         for m in writes:
+            if m.how == "setitem":
+                conds = [(c, p) for c, p in symeval.pc_conds(m.pc)]
+                absent = len(conds) == 1 and conds[0][1] and conds[0][0].op == "cmp" and conds[0][0].a[0] == "notin" and conds[0][0].a[1] is m.key and conds[0][0].a[2].op in ("loopvar", "loop") and conds[0][0].a[2].a[1] == gname
+                yield ob("C05.EDGEPRED", f, "%s:create-iff-absent" % q, absent, "G[e] = [] runs iff e is not yet a key of the graph" if absent else "the adjacency list of e is (re)created under %s, not under `e not in G`: edges already recorded for e can be thrown away" % "; ".join(tm.show(c, 3) for c, _ in conds), node=m.node)
+        for m in writes:
             if m.how == "method:append":
                 extra = [x for x in m.pc if x[0] != "loop"]
                 inloop = [x for x in m.pc if x[0] == "loop"]
@@ -357,7 +362,23 @@ def rule_hkshape(ctx):
     yield ob("C05.HKSHAPE", f, "util._bipartite_match.recurse:rematch", good, "a vertex is re-matched only if its predecessor is a free vertex or was itself re-matched")
 
 
+def rule_framecount(ctx):
+    """Shared with C01.HITRATIO / C04.ROUNDING: the per-frame hit count is the size of *that frame pair's* matching, and
+    onset/offset distances are rounded as distances (a tie exactly at the tolerance is a hit, so the matching is
+    maximum over the documented tolerance graph)."""
+    from . import c01, c04
+
+    for o in c01.rule_hitratio(ctx):
+        if o.construct.startswith("multipitch."):
+            o.rule = "C05.FRAMECOUNT"
+            yield o
+    for o in c04.rule_rounding(ctx):
+        o.rule = "C05.FRAMECOUNT"
+        yield o
+
+
 RULES = [
+    ("C05.FRAMECOUNT", 8, rule_framecount),
     ("C05.EDGEPRED", 20, rule_edgepred),
     ("C05.MATCHSRC", 10, rule_matchsrc),
     ("C05.SUBSET", 3, rule_subset),
